@@ -374,21 +374,44 @@ func (c *Ctx) hashPreimage() {
 			}
 			c.check(plain && shifted && !other, R, "Merkle cells hash their children one level up", dW.Pos(), "childLevelIndex is i, or i+1 on the Merkle-proof / Merkle-update edge", "the child level is no longer i for ordinary cells and i+1 for Merkle cells")
 		}
-		// the i+1 edge is taken exactly for cell types 3 and 4
+		// the i+1 edge is taken exactly for cell types 3 and 4: every test of the cell type against one of them sends
+		// its EQUAL side (true edge of ==, false edge of !=) straight to one and the same block - not into the other
+		// test (that would be "and"), and not to different places
 		tset := map[int64]bool{}
-		for _, vi := range view {
-			ifi, ok := vi.in.(*ssa.If)
-			if !ok {
-				continue
-			}
-			if bo, ok := ifi.Cond.(*ssa.BinOp); ok && (bo.Op == token.EQL || bo.Op == token.NEQ) {
-				x, _ := resolveDeep(bo.X, vi.cx)
-				if k, ok := constInt(bo.Y); ok && k >= 2 && derivesFrom(x, fieldLoadOf("boc.Cell.cellType"), false) {
-					tset[k] = true
+		typeTests := map[*ssa.BasicBlock]bool{}
+		eqSide := map[*ssa.BasicBlock]bool{}
+		okSides := true
+		for pass := 0; pass < 2; pass++ {
+			for _, vi := range view {
+				ifi, ok := vi.in.(*ssa.If)
+				if !ok {
+					continue
+				}
+				if bo, ok := ifi.Cond.(*ssa.BinOp); ok && (bo.Op == token.EQL || bo.Op == token.NEQ) {
+					x, _ := resolveDeep(bo.X, vi.cx)
+					if k, ok := constInt(bo.Y); ok && k >= 2 && derivesFrom(x, fieldLoadOf("boc.Cell.cellType"), false) {
+						if pass == 0 {
+							tset[k] = true
+							typeTests[ifi.Block()] = true
+							continue
+						}
+						side := ifi.Block().Succs[0]
+						if bo.Op == token.NEQ {
+							side = ifi.Block().Succs[1]
+						}
+						if typeTests[side] {
+							okSides = false
+						}
+						eqSide[side] = true
+					}
 				}
 			}
 		}
+		if len(eqSide) != 1 {
+			okSides = false
+		}
 		types := keysOfInt(tset)
+		c.check(okSides || len(types) == 0, R, "the child-level shift is taken when the type IS Merkle proof OR Merkle update", dW.Pos(), "both type tests send their equal side to the same block", "the tests of the cell type that select the shifted child level are no longer 'type == MerkleProof || type == MerkleUpdate' (an inverted comparison or an 'and'): Merkle cells hash their children at the wrong level, or ordinary cells do")
 		c.check(fmt.Sprint(types) == "[3 4]", R, "the shifted child level applies to Merkle proof and Merkle update cells", dW.Pos(), "cellType == 3 || cellType == 4", fmt.Sprintf("the child-level shift is applied for cell types %v, the definition says Merkle proof (3) and Merkle update (4)", types))
 	}
 }
